@@ -54,6 +54,7 @@ type Knobs struct {
 	DoGivesUp       bool          // the HTTPClient gives up on its own account while it waits for the response (http.Client.Timeout): Do fails, the context is fine, and the transport may still be busy with the request
 	H1LateCloseSlow bool          // ... and the socket\'s close is slow in coming
 	H1Close         bool          // HTTP/1.1: the server closes the connection when request bytes keep coming after its answer (see runPump)
+	HoldAnswer      bool          // net/http's servers buffer: the answer leaves when the handler flushes, has written more than the buffer holds (2 KiB on HTTP/1.1, 4 KiB on HTTP/2), or returns - and an answer that is complete by then gets a Content-Length
 	UpScript        []int         // scripted read sizes (enumeration worlds); nil: use UpFrag
 	DownScript      []int
 	OneByteMax      int // one-byte delivery applies only to the first OneByteMax bytes of a direction (0: all)
@@ -282,6 +283,10 @@ type Exchange struct {
 	RespClose           bool // HTTP/1.1: the answer announces that the server will close the connection (it has given up on the request)
 	ConnClosedOnUpload  bool // HTTP/1.1: the server closed the connection on a client that kept uploading after the answer
 	everFlushed         bool // the handler called Flush
+	released            bool   // the answer's headers have left the server (always so at commit unless Knobs.HoldAnswer)
+	held                []byte // HoldAnswer: what the handler wrote and the server still buffers
+	HeldToEnd           bool   // HoldAnswer: the whole answer left at the handler's return
+	ComputedLength      int64  // the Content-Length net/http added to a held answer (-1: none)
 	written             int  // bytes the handler wrote
 	snapTrailers        bool // the headers as of the first write announced trailers (Trailer header or TrailerPrefix keys)
 	UnchunkedNoTrailers bool // HTTP/1.1: trailers were lost because the response was not chunked
@@ -479,6 +484,9 @@ func (n *Net) Do(req *http.Request) (*http.Response, error) {
 		ContentLength: -1,
 		Request:       req,
 	}
+	if e.ComputedLength >= 0 {
+		resp.ContentLength = e.ComputedLength
+	}
 	announceTrailers(resp, c.K.DropTrailers)
 	resp.Close = e.RespClose
 	resp.Body = &respBody{e: e, resp: resp}
@@ -519,7 +527,7 @@ func closeBody(req *http.Request) {
 }
 
 func (n *Net) newExchange(c *Call, req *http.Request) *Exchange {
-	e := &Exchange{Call: c, clientReq: req, Method: req.Method, URL: req.URL.String(), ClosedReqStep: -1, HandlerDoneStep: -1}
+	e := &Exchange{Call: c, clientReq: req, Method: req.Method, URL: req.URL.String(), ClosedReqStep: -1, HandlerDoneStep: -1, ComputedLength: -1}
 	e.dp.e = e
 	e.wp.e = e
 	e.Up = NewLink(n.S, c.ID+"/up", c.K.UpWindow)
@@ -806,6 +814,9 @@ func (e *Exchange) runHandler() {
 		e.ServeStart = time.Now()
 		c.Route.ServeHTTP(rw, sreq)
 	}()
+	if c.K.HoldAnswer {
+		e.letGo(true)
+	}
 	// The end of the response (END_STREAM / last chunk) is a transport event of
 	// its own, after whatever the handler flushed: other tasks may run between
 	// the two.
@@ -825,6 +836,10 @@ func (e *Exchange) finishHandler() {
 	if e.Panic != nil {
 		// net/http aborts the response: RST_STREAM(INTERNAL_ERROR) on HTTP/2,
 		// connection close on HTTP/1.1.
+		if e.committed && !e.released {
+			// ... and what it still buffered, headers included, is never sent
+			e.committed = false
+		}
 		var err error
 		if e.Call.K.HTTP2 {
 			err = errors.New("stream error: stream ID 1; INTERNAL_ERROR; received from peer")
@@ -952,6 +967,17 @@ func (e *Exchange) commitLocked(status int) {
 		snap["Date"] = []string{"Mon, 01 Jan 2024 00:00:00 GMT"}
 	}
 	e.RespHeader = snap
+	if !e.Call.K.HoldAnswer {
+		e.releaseLocked()
+	}
+}
+
+// releaseLocked is the moment the answer's headers leave the server.
+func (e *Exchange) releaseLocked() {
+	if e.released {
+		return
+	}
+	e.released = true
 	if !e.Call.K.HTTP2 && e.Call.K.H1Close && !e.upEOF {
 		// net/http's HTTP/1.1 server, about to answer while the request body has
 		// not ended, first reads on for a bounded amount (256 KiB); if the end
@@ -961,6 +987,46 @@ func (e *Exchange) commitLocked(status int) {
 		e.RespClose = true
 	}
 	e.setCommitFlag()
+}
+
+// holdLimit is how much of an answer net/http's server keeps to itself before
+// the headers go out.
+func (e *Exchange) holdLimit() int {
+	if e.Call.K.HTTP2 {
+		return 4096
+	}
+	return 2048
+}
+
+// letGo releases a held answer: the headers, then what was buffered. At the
+// handler's return (final) a complete answer gets its Content-Length first.
+// Runs on the handler's task, without the lock while it writes.
+func (e *Exchange) letGo(final bool) {
+	e.mu.Lock()
+	if e.released || e.Panic != nil {
+		e.mu.Unlock()
+		return
+	}
+	if !e.committed {
+		e.commitLocked(http.StatusOK)
+	}
+	if final {
+		e.HeldToEnd = true
+		_, hasCL := e.RespHeader["Content-Length"]
+		_, hasTE := e.RespHeader["Transfer-Encoding"]
+		bodyAllowed := e.Status >= 200 && e.Status != http.StatusNoContent && e.Status != http.StatusNotModified
+		if !hasCL && !hasTE && bodyAllowed && (e.Call.K.HTTP2 || !e.snapTrailers) {
+			e.ComputedLength = int64(len(e.held))
+			e.RespHeader["Content-Length"] = []string{strconv.Itoa(len(e.held))}
+		}
+	}
+	e.releaseLocked()
+	held := e.held
+	e.held = nil
+	e.mu.Unlock()
+	if len(held) > 0 {
+		_, _ = e.Down.Write(held, false)
+	}
 }
 
 // respWriter implements http.ResponseWriter and http.Flusher.
@@ -990,6 +1056,15 @@ func (w *respWriter) Write(p []byte) (int, error) {
 	}
 	e.mu.Lock()
 	e.written += len(p)
+	if !e.released {
+		e.held = append(e.held, p...)
+		over := len(e.held) > e.holdLimit()
+		e.mu.Unlock()
+		if over {
+			e.letGo(false)
+		}
+		return len(p), nil
+	}
 	e.mu.Unlock()
 	return e.Down.Write(p, e.Call.K.AutoFlush && !e.Call.K.NoFlusher)
 }
@@ -999,6 +1074,7 @@ func (w *respWriter) Flush() {
 	w.e.commitLocked(http.StatusOK)
 	w.e.everFlushed = true
 	w.e.mu.Unlock()
+	w.e.letGo(false)
 	w.e.Down.Flush()
 }
 
